@@ -151,7 +151,7 @@ func genScenario(r *hk.Rand, proto int, thorough bool) scenario {
 	}
 	// body
 	if r.Chance(65) {
-		sc.BodyKind = hk.Pick(r, []string{"bytes", "bytes", "string", "reader", "reader", "getbody", "marshal"})
+		sc.BodyKind = hk.Pick(r, []string{"bytes", "bytes", "string", "reader", "reader", "eofreader", "getbody", "marshal"})
 		sc.BodySeed = r.Intn(256)
 		sizes := bodySizes
 		if thorough && r.Chance(15) {
@@ -214,6 +214,18 @@ func (s *slowReader) Read(p []byte) (int, error) {
 	return n, nil
 }
 
+// eofReader returns its last bytes together with io.EOF in the same Read (as iotest.DataErrReader)
+type eofReader struct{ b []byte }
+
+func (e *eofReader) Read(p []byte) (int, error) {
+	n := copy(p, e.b)
+	e.b = e.b[n:]
+	if len(e.b) == 0 {
+		return n, io.EOF
+	}
+	return n, nil
+}
+
 type built struct {
 	c   *req.Client
 	r   *req.Request
@@ -268,6 +280,8 @@ func build(sc scenario, o *origin.Origin) built {
 		r.SetBodyString(string(body))
 	case "reader":
 		r.SetBody(&slowReader{b: body, step: 1000 + sc.BodySeed*7})
+	case "eofreader":
+		r.SetBody(&eofReader{b: body})
 	case "getbody":
 		r.SetBody(func() (io.ReadCloser, error) { return io.NopCloser(bytes.NewReader(body)), nil })
 	case "marshal":
@@ -425,7 +439,7 @@ func coqFields(fs []origin.Field) string {
 }
 
 func (sc scenario) coqAreq(b built) string {
-	kind := map[string]string{"none": "BNone", "bytes": "BKnown", "string": "BKnown", "reader": "BStream", "getbody": "BStream", "marshal": "BMarshal"}[sc.BodyKind]
+	kind := map[string]string{"none": "BNone", "bytes": "BKnown", "string": "BKnown", "reader": "BStream", "eofreader": "BStream", "getbody": "BStream", "marshal": "BMarshal"}[sc.BodyKind]
 	body := sc.bodyBytes()
 	bodyCoq := fmt.Sprintf("(gen_body %d%%N %d%%N)", sc.BodySeed, sc.BodyLen)
 	if sc.BodyLen > 600 {
